@@ -58,6 +58,10 @@ def generate(rng):
         deco = sample_constraints(rng, min(cfg["n"], cfg["n2"]))
     cfg["decorate"] = deco
     cfg["layouts"] = sample_layouts(rng)
+    if uses_precomputed(cfg):
+        # a user-supplied matrix can come in any memory order and need not be exactly symmetric (e.g. a transport cost)
+        cfg["affinity_layout"] = weighted(rng, [("C", 5), ("F", 3)])
+        cfg["affinity_asym"] = rng.random() < 0.4
     ops = sample_prefix(rng, cfg, p_any=0.3)
     ops.append({"op": "fit", "data": 0})
     if fam.get("sparse") and cfg["d"] >= 2 and rng.random() < 0.5:
@@ -285,6 +289,15 @@ def execute(record):
         X1, A1 = second_dataset(cfg)
         lay = cfg.get("layouts") or ["C", "C"]
         X, X1 = apply_layout(X, lay[0]), apply_layout(X1, lay[1])     # the affinities were computed from the float64 values
+
+        def user_matrix(M):
+            if M is None:
+                return None
+            if cfg.get("affinity_asym"):
+                rsA = np.random.RandomState(cfg["data_seed"] % (2 ** 31) ^ 0xA5)
+                M = M + np.triu(rsA.uniform(0.0, 0.05, size=M.shape), 1)
+            return np.asfortranarray(M) if cfg.get("affinity_layout") == "F" else np.ascontiguousarray(M)
+        A, A1 = user_matrix(A), user_matrix(A1)
         pool = [(X, A), (X1, A1)]
         model = build_model(cfg, log)
         world = World(log, res, rng)
